@@ -23,13 +23,36 @@
                        flag is set or the waking broadcast is still to come (no
                        lost wake-up) -- also for calls made by a Range visitor
                        from inside the Range (C13 for the Map variant)
-   No invariant about the cells of XMachineS is proved yet (MapOf's are: C04);
-   the concurrent behaviour of map.go is decided by the step correspondence and by search: the real code under
+     C03_bucket_locks  on XMachineS, every reachable state (proofs/XS_lock.v): the spin
+                       lock inside the top-hash word of a root bucket names thread t
+                       exactly when t's program counter is between the successful CAS
+                       of lockBucket and the StoreUint64 of unlockBucket for that
+                       bucket (doCompute, copyBucket, Range alike); two threads never
+                       hold the same bucket; a thread holds at most one; continuations,
+                       Range frames, idle and returned threads hold none (C13 / C14
+                       for the Map variant).  Hypothesis nslots <= 3: with four slots
+                       the MODEL's word encoding overlaps the lock bit and the lock can
+                       be stolen (XS_inst.hslots_needed is the schedule); map.go has 3.
+     C03_write_ownership    (proofs/XS_own.v) a step changes the cells of a bucket --
+                       its key / value pointers or any bit of its words above the lock
+                       bit -- only if the stepping thread holds that bucket's lock, or
+                       the table is the unpublished table of the resize it is running,
+                       which no other thread or frame refers to (C14 for Map).
+     C03_counter       (proofs/XS_count.v) in every reachable state, for every table:
+                       slots with a key = sum of the counter stripes + additions still
+                       owed by threads between their key store / key erase and their
+                       AddInt64; hence the counter is exact for a table nobody owes to
+                       (C08 for Map).
+     C03_instance      the extracted machine that CORR-sched replays against map.go
+                       meets the hypotheses.
+   Not proved for Map: the invariant about values and key uniqueness (MapOf: C04_cells),
+   the abstract map and its steps (MapOf: C04_abs_step);
+   the concurrent behaviour of map.go beyond the above is decided by the step correspondence and by search: the real code under
    the controlled scheduler (random / PCT schedules at the granularity of single
    atomic operations, tables at the grow / shrink thresholds, Clear), every
    history checked for linearizability against map[string]interface{}. *)
-From CacheV Require Import Base SpecMap TableModel TabExec Exec XMachineS.
-From CacheV.proofs Require Import C11_lists C11_table C11_idx X_maps XS_inv.
+From CacheV Require Import Base SpecMap TableModel TabExec Exec XMachineS XExec XExecS.
+From CacheV.proofs Require Import C11_lists C11_table C11_idx X_maps XS_inv XS_lock XS_own XS_count XS_inst.
 From Coq Require Import NArith.
 
 Theorem C03_sequential :
@@ -79,3 +102,79 @@ Example C03_nonvacuous :
   (exists cx, h_pc ex_run03 0%nat = QW_ChkTab cx 0%nat) /\ sreader_pc (h_pc ex_run03 1%nat) = true.
 Proof. split; [eexists; vm_compute; reflexivity | vm_compute; reflexivity]. Qed.
 Print Assumptions C03_nonvacuous.
+
+(* ---------------- bucket locks, write ownership, counter (XMachineS, every schedule) ---------------- *)
+
+Theorem C03_bucket_locks :
+  forall (K V : Type) (eqd : forall a b : K, {a = b} + {a <> b}) hash idx tophash nslots seeds g sh nstripes minlen grow_only,
+    shyps idx minlen nslots -> forall len0 todo sched, (0 < len0)%nat ->
+    let s := fst (@srun K V eqd hash idx tophash nslots seeds g sh nstripes minlen grow_only (sinit nslots seeds nstripes len0 todo) sched) in
+    (forall t tab b, lock_of nslots nstripes s tab b = Some t <-> sholds hash idx nslots nstripes s (h_pc s t) = Some (tab, b))
+    /\ (forall t t' tab b, sholds hash idx nslots nstripes s (h_pc s t) = Some (tab, b) ->
+                           sholds hash idx nslots nstripes s (h_pc s t') = Some (tab, b) -> t = t')
+    /\ (forall t tab b tab' b', lock_of nslots nstripes s tab b = Some t -> lock_of nslots nstripes s tab' b' = Some t -> tab' = tab /\ b' = b)
+    /\ (forall t tab b, h_pc s t = QIdle \/ h_pc s t = QStart -> lock_of nslots nstripes s tab b <> Some t).
+Proof.
+  intros K V eqd hash idx tophash nslots seeds g sh nstripes minlen grow_only [H1 [H2 H3]] len0 todo sched Hl s.
+  pose proof (reachable_XL eqd hash idx tophash nslots seeds g sh nstripes minlen grow_only H3 H1 H2 len0 todo sched Hl) as HX.
+  fold s in HX. split; [|split; [|split]].
+  - intros t tab b. apply (lock_iff hash idx nslots nstripes s t tab b HX).
+  - intros t t' tab b. apply (lock_mutex hash idx nslots nstripes s t t' tab b HX).
+  - intros t tab b tab' b'. apply (lock_one hash idx nslots nstripes s t tab b tab' b' HX).
+  - intros t tab b. apply (idle_no_lock hash idx nslots nstripes s t tab b HX).
+Qed.
+Print Assumptions C03_bucket_locks.
+
+Theorem C03_write_ownership :
+  forall (K V : Type) (eqd : forall a b : K, {a = b} + {a <> b}) hash idx tophash nslots seeds g sh nstripes minlen grow_only,
+    shyps idx minlen nslots -> forall len0 todo sched t s' ls tab b, (0 < len0)%nat ->
+    let s := fst (@srun K V eqd hash idx tophash nslots seeds g sh nstripes minlen grow_only (sinit nslots seeds nstripes len0 todo) sched) in
+    @sstep K V eqd hash idx tophash nslots seeds g sh nstripes minlen grow_only s t = Some (s', ls) ->
+    (tab < length (h_tabs s))%nat ->
+    cells (stab_at nslots nstripes s' tab) b <> cells (stab_at nslots nstripes s tab) b ->
+    lock_of nslots nstripes s tab b = Some t
+    \/ (snewtab (h_pc s t) = Some tab /\ (h_cur s < tab)%nat /\ S tab = length (h_tabs s)
+        /\ (forall t', t' <> t -> XS_own.tabs_le (h_cur s) (h_pc s t') /\ snewtab (h_pc s t') = None)
+        /\ (forall t' fr, h_frame s t' = Some fr -> XS_own.tabs_le (h_cur s) (rf_after fr) /\ snewtab (rf_after fr) = None)).
+Proof.
+  intros K V eqd hash idx tophash nslots seeds g sh nstripes minlen grow_only [H1 [H2 H3]] len0 todo sched t s' ls tab b Hl.
+  apply (reachable_write_ownership eqd hash idx tophash nslots seeds g sh nstripes minlen grow_only H3 H1 H2 len0 todo sched t s' ls tab b Hl).
+Qed.
+Print Assumptions C03_write_ownership.
+
+Theorem C03_counter :
+  forall (K V : Type) (eqd : forall a b : K, {a = b} + {a <> b}) hash idx tophash nslots seeds g sh nstripes minlen grow_only,
+    shyps_count idx minlen nslots nstripes -> forall len0 todo sched, (0 < len0)%nat ->
+    let s := fst (@srun K V eqd hash idx tophash nslots seeds g sh nstripes minlen grow_only (sinit nslots seeds nstripes len0 todo) sched) in
+    (forall x, (x < length (h_tabs s))%nat ->
+       XS_count.tcount (stab_at nslots nstripes s x)
+       = (ssum_z (m_size (stab_at nslots nstripes s x)) + XS_count.owed_all s x (nodup Nat.eq_dec sched))%Z)
+    /\ (forall x, (x < length (h_tabs s))%nat -> (forall t, XS_count.owed x (h_pc s t) = 0%Z) ->
+          ssum_z (m_size (stab_at nslots nstripes s x)) = XS_count.tcount (stab_at nslots nstripes s x)).
+Proof.
+  intros K V eqd hash idx tophash nslots seeds g sh nstripes minlen grow_only [[H1 [H2 H3]] H4] len0 todo sched Hl s. split.
+  - apply (reachable_count eqd hash idx tophash nslots seeds g sh nstripes minlen grow_only H3 H1 H2 H4 len0 todo sched Hl).
+  - intros x Hx Ho.
+    apply (quiescent_size eqd hash idx tophash nslots seeds g sh nstripes minlen grow_only H3 H1 H2 H4 len0 todo sched x Hl Hx Ho).
+Qed.
+Print Assumptions C03_counter.
+
+Theorem C03_instance :
+  forall hint, shyps_count idx_map (minlen_of_hint false hint) (nslots_of false) nstripes_x.
+Proof. exact s_instance_hyps_count. Qed.
+Print Assumptions C03_instance.
+
+(* non-vacuity (proofs/XS_inst.v): a state with a lock held and a spinning second thread; a state with one key,
+   counter 0 and one addition owed; and the schedule that steals a lock when nslots = 4 *)
+Example C03_locks_nonvacuous :
+  let s := ex_sched [0; 0; 0; 0; 1; 1]%nat in
+  sholds (fun k _ => N.of_nat k) (fun h len => Nat.modulo (N.to_nat h) len) 3%nat (fun _ => 1%nat) s (h_pc s 0%nat) = Some (0%nat, 0%nat)
+  /\ lock_of 3%nat (fun _ => 1%nat) s 0%nat 0%nat = Some 0%nat.
+Proof. exact lock_nonvacuous. Qed.
+Example C03_counter_nonvacuous :
+  let s := ex_sched [0; 0; 0; 0; 0; 0; 0; 0; 0; 0; 0]%nat in
+  XS_count.tcount (stab_at 3%nat (fun _ => 1%nat) s 0%nat) = 1%Z
+  /\ ssum_z (m_size (stab_at 3%nat (fun _ => 1%nat) s 0%nat)) = 0%Z
+  /\ XS_count.owed 0%nat (h_pc s 0%nat) = 1%Z.
+Proof. exact count_nonvacuous. Qed.
+Print Assumptions C03_counter_nonvacuous.
